@@ -682,6 +682,9 @@ func EngRepoTerm(s *Spec, order []string, logPath string) string {
 				srcs = append(srcs, lib.App("SFile", lib.Str(x)))
 			}
 		}
+		for _, x := range t.Tools {
+			srcs = append(srcs, lib.App("STool", lib.Str(x)))
+		}
 		outs := t.Outs
 		if t.Kind == "text_file" && len(outs) == 0 {
 			outs = []string{t.Name}
